@@ -277,3 +277,142 @@ Proof.
     try exact I; try reflexivity.
   apply meta_wrap_ext.
 Qed.
+
+(* ------------------------------------------------------------------ *)
+(* more_available = False: MoreInputRequired is never raised, and a result decided with
+   more_available = True is the same with False *)
+Ltac break_match :=
+  repeat match goal with
+         | |- context [match ?x with _ => _ end] => destruct x
+         | |- context [if ?x then _ else _] => destruct x
+         end.
+
+Lemma sgr_event_not_more body t : sgr_event body t <> OMore.
+Proof. unfold sgr_event. break_match; discriminate. Qed.
+
+Lemma read_mouse_info_false keys : read_mouse_info keys false <> OMore.
+Proof. destruct keys as [|k0 [|k1 [|k2 rest]]]; cbn; discriminate. Qed.
+
+Lemma read_sgrmouse_info_false keys : read_sgrmouse_info keys false <> OMore.
+Proof.
+  unfold read_sgrmouse_info. destruct keys; [discriminate|].
+  destruct (sgr_scan (z :: keys)) as [[[v t] r]|]; [|discriminate].
+  pose proof (sgr_event_not_more v t). destruct (sgr_event v t) as [[ev|]| |e]; congruence.
+Qed.
+
+Lemma get_recurse_false keys : forall root, get_recurse root keys false <> OMore.
+Proof.
+  induction keys as [|k keys IH]; intros root; destruct root as [name|ch].
+  - rewrite get_recurse_leaf. destruct (zs_eqb name str_mouse); [apply read_mouse_info_false|].
+    destruct (zs_eqb name str_sgrmouse); [apply read_sgrmouse_info_false|discriminate].
+  - cbn. discriminate.
+  - rewrite get_recurse_leaf. destruct (zs_eqb name str_mouse); [apply read_mouse_info_false|].
+    destruct (zs_eqb name str_sgrmouse); [apply read_sgrmouse_info_false|discriminate].
+  - rewrite get_recurse_node. destruct (assoc k ch); [apply IH|discriminate].
+Qed.
+
+Lemma read_cursor_position_false keys : read_cursor_position keys false <> OMore.
+Proof. unfold read_cursor_position. break_match; discriminate. Qed.
+
+Lemma trie_get_in_false root keys : trie_get_in root keys false <> OMore.
+Proof.
+  unfold trie_get_in. pose proof (get_recurse_false keys root).
+  destruct (get_recurse root keys false) as [[[ev rest]|]| |e]; try congruence; try discriminate.
+  apply read_cursor_position_false.
+Qed.
+
+Lemma wide_step_false em code tl : wide_step em code tl false <> Some OMore.
+Proof. unfold wide_step. break_match; discriminate. Qed.
+
+Lemma utf8_step_false em code tl : utf8_step em code tl false <> Some OMore.
+Proof. unfold utf8_step. break_match; discriminate. Qed.
+
+Lemma meta_wrap_not_more run rest : meta_wrap run rest <> OMore.
+Proof. unfold meta_wrap. break_match; discriminate. Qed.
+
+Lemma process_false_not_more em c : process_keyqueue em c false <> OMore.
+Proof.
+  induction c as [|code tl IH]; [cbn; discriminate|].
+  rewrite process_eq.
+  destruct ((32 <=? code) && (code <=? 126)); [discriminate|].
+  destruct (assoc code keyconv); [discriminate|].
+  destruct ((0 <? code) && (code <? 27)); [discriminate|].
+  destruct ((27 <? code) && (code <? 32)); [discriminate|].
+  pose proof (wide_step_false em code tl) as Hw.
+  destruct (wide_step em code tl false) as [[[evs rest]| |e]|]; try congruence; try discriminate.
+  pose proof (utf8_step_false em code tl) as Hu.
+  destruct (utf8_step em code tl false) as [[[evs rest]| |e]|]; try congruence; try discriminate.
+  destruct ((127 <? code) && (code <? 256)); [discriminate|].
+  destruct (negb (code =? 27)); [discriminate|].
+  pose proof (trie_get_in_false input_trie tl) as Ht. fold trie_get in Ht.
+  destruct (trie_get tl false) as [[[ev rest]|]| |e]; try congruence; try discriminate.
+  destruct tl as [|k tl']; [discriminate|].
+  destruct (process_keyqueue em (k :: tl') false) as [[run rest]| |e]; try congruence; try discriminate.
+  apply meta_wrap_not_more.
+Qed.
+
+(* flag relation *)
+Definition flag_opt {A} (ot of : outcome A) : Prop :=
+  match ot with OMore => True | _ => of = ot end.
+Definition flag_step (st sf : option (outcome res)) : Prop :=
+  match st with Some OMore => True | _ => sf = st end.
+
+Lemma read_mouse_info_flag keys : flag_opt (read_mouse_info keys true) (read_mouse_info keys false).
+Proof. destruct keys as [|k0 [|k1 [|k2 rest]]]; cbn; auto. Qed.
+
+Lemma read_sgrmouse_info_flag keys : flag_opt (read_sgrmouse_info keys true) (read_sgrmouse_info keys false).
+Proof.
+  unfold read_sgrmouse_info. destruct keys; [cbn; auto|].
+  destruct (sgr_scan (z :: keys)) as [[[v t] r]|]; [|cbn; auto].
+  destruct (sgr_event v t) as [[ev|]| |e]; cbn; auto.
+Qed.
+
+Lemma get_recurse_flag keys : forall root, flag_opt (get_recurse root keys true) (get_recurse root keys false).
+Proof.
+  induction keys as [|k keys IH]; intros root; destruct root as [name|ch].
+  - rewrite !get_recurse_leaf. destruct (zs_eqb name str_mouse); [apply read_mouse_info_flag|].
+    destruct (zs_eqb name str_sgrmouse); [apply read_sgrmouse_info_flag|]. cbn; auto.
+  - cbn. auto.
+  - rewrite !get_recurse_leaf. destruct (zs_eqb name str_mouse); [apply read_mouse_info_flag|].
+    destruct (zs_eqb name str_sgrmouse); [apply read_sgrmouse_info_flag|]. cbn; auto.
+  - rewrite !get_recurse_node. destruct (assoc k ch); [apply IH|cbn; auto].
+Qed.
+
+Lemma read_cursor_position_flag keys :
+  flag_opt (read_cursor_position keys true) (read_cursor_position keys false).
+Proof. unfold read_cursor_position. break_match; cbn; auto. Qed.
+
+Lemma trie_get_in_flag root keys : flag_opt (trie_get_in root keys true) (trie_get_in root keys false).
+Proof.
+  unfold trie_get_in. pose proof (get_recurse_flag keys root) as H.
+  destruct (get_recurse root keys true) as [[[ev rest]|]| |e]; cbn in H; try rewrite H; cbn; auto.
+  apply read_cursor_position_flag.
+Qed.
+
+Lemma wide_step_flag em code tl : flag_step (wide_step em code tl true) (wide_step em code tl false).
+Proof. unfold wide_step. break_match; cbn; auto. Qed.
+
+Lemma utf8_step_flag em code tl : flag_step (utf8_step em code tl true) (utf8_step em code tl false).
+Proof. unfold utf8_step. break_match; cbn; auto. Qed.
+
+Lemma process_flag em c : flag_opt (process_keyqueue em c true) (process_keyqueue em c false).
+Proof.
+  induction c as [|code tl IH]; [cbn; auto|].
+  rewrite !process_eq.
+  destruct ((32 <=? code) && (code <=? 126)); [cbn; auto|].
+  destruct (assoc code keyconv); [cbn; auto|].
+  destruct ((0 <? code) && (code <? 27)); [cbn; auto|].
+  destruct ((27 <? code) && (code <? 32)); [cbn; auto|].
+  pose proof (wide_step_flag em code tl) as Hw.
+  destruct (wide_step em code tl true) as [[[evs rest]| |e]|]; cbn in Hw; try rewrite Hw; cbn; auto.
+  pose proof (utf8_step_flag em code tl) as Hu.
+  destruct (utf8_step em code tl true) as [[[evs rest]| |e]|]; cbn in Hu; try rewrite Hu; cbn; auto.
+  destruct ((127 <? code) && (code <? 256)); [cbn; auto|].
+  destruct (negb (code =? 27)); [cbn; auto|].
+  pose proof (trie_get_in_flag input_trie tl) as Ht. fold trie_get in Ht.
+  destruct (trie_get tl true) as [[[ev rest]|]| |e]; cbn in Ht; try rewrite Ht; cbn; auto.
+  destruct tl as [|k tl']; [cbn; auto|].
+  destruct (process_keyqueue em (k :: tl') true) as [[run rest]| |e]; cbn [flag_opt] in IH; try rewrite IH;
+    cbn [flag_opt]; auto.
+  destruct (meta_wrap run rest) as [[a b]| |]; cbn [flag_opt]; auto.
+Qed.
